@@ -117,6 +117,9 @@ func c20RepoOne(c *core.Ctx, base string, k c20RepoCase) {
 }
 
 func c20RepoRun(c *core.Ctx) {
+	if !c20Only("repository-switch") {
+		return
+	}
 	base := core.Scratch("c20repo")
 	maxLen := 4
 	if c.Thorough() {
